@@ -44,7 +44,7 @@ example : applyDelay ⟨some (fun _ _ => some (Delay.for 0 5)), false⟩ "t"
     nothing else of the message (other metadata, identity, context). -/
 theorem delay_stamp_exact (m : Msg) (d : Delay) :
     mget (stamp m d).md forKey = .dur d.dur ∧
-    mget (stamp m d).md untilKey = .time (secOf d.time) ∧
+    mget (stamp m d).md untilKey = renderTime d.time d.zone ∧
     (∀ k, k ≠ forKey → k ≠ untilKey → mget (stamp m d).md k = mget m.md k) ∧
     (stamp m d).id = m.id ∧ (stamp m d).ctxDelay = m.ctxDelay ∧
     (stamp m d).pubMark = m.pubMark ∧ (stamp m d).subMark = m.subMark :=
@@ -91,8 +91,8 @@ theorem delay_stamp_once (cfg cfg' : DelayCfg) (topic topic' : String) (m : Msg)
   · rw [h1] at h; exact absurd rfl h
 
 /- non-vacuity of `delay_stamp_once`: a message with a context delay is changed by the first publisher -/
-example : (applyDelay ⟨none, false⟩ "t" { id := 0, md := [], ctxDelay := some ⟨5, 5⟩ }).2.1 ≠
-    ({ id := 0, md := [], ctxDelay := some ⟨5, 5⟩ } : Msg) := by
+example : (applyDelay ⟨none, false⟩ "t" { id := 0, md := [], ctxDelay := some ⟨5, 5, 0⟩ }).2.1 ≠
+    ({ id := 0, md := [], ctxDelay := some ⟨5, 5, 0⟩ } : Msg) := by
   intro h
   have := congrArg (fun m => m.md.length) h
   simp [applyDelay, mget, stamp, mset, Val.empty] at this
@@ -110,14 +110,35 @@ theorem delay_for_until_agree (m : Msg) (now x : Int) :
   constructor
   · intro u f hu hf
     rw [stamp_until] at hu; rw [stamp_for] at hf
-    simp only [Delay.for, Val.time.injEq, Val.dur.injEq] at hu hf
+    simp only [Delay.for, renderTime, if_true, Val.time.injEq, Val.dur.injEq] at hu hf
     subst hf; unfold secOf at hu
     refine ⟨rfl, ?_, ?_⟩ <;> omega
   · intro u f hu hf
     rw [stamp_until] at hu; rw [stamp_for] at hf
-    simp only [Delay.until, Val.time.injEq, Val.dur.injEq] at hu hf
+    simp only [Delay.until, renderTime, if_true, Val.time.injEq, Val.dur.injEq] at hu hf
     subst hf
     refine ⟨hu.symm, ?_, ?_⟩ <;> unfold secOf at hu <;> omega
+
+/-- **the agreement does not depend on the location the `time.Time` of `delay.Until(t)` carries**: whatever the zone,
+    the stamped delayed-until denotes the instant `t` itself – the second in which `now + for` lies – only its
+    rendering (suffix `Z` or `+hh:mm`) follows the zone -/
+theorem delay_until_zone_agree (m : Msg) (now t zone : Int) :
+    ∃ u, (mget (stamp m (Delay.untilIn now t zone)).md untilKey).instantSec = some u ∧ u = secOf t ∧
+      mget (stamp m (Delay.untilIn now t zone)).md forKey = .dur (t - now) ∧
+      u * 1000000000 ≤ now + (t - now) ∧ now + (t - now) < u * 1000000000 + 1000000000 ∧
+      (zone ≠ 0 → mget (stamp m (Delay.untilIn now t zone)).md untilKey = .timeIn u zone) := by
+  refine ⟨secOf t, ?_, rfl, ?_, ?_, ?_, ?_⟩
+  · rw [stamp_until]; by_cases hz : zone = 0 <;> simp [Delay.untilIn, renderTime, hz, Val.instantSec]
+  · rw [stamp_for]; rfl
+  · unfold secOf; omega
+  · unfold secOf; omega
+  · intro hz; rw [stamp_until]; simp [Delay.untilIn, renderTime, hz]
+
+/-- the seeded layout with a literal `Z`: for a time two hours east of UTC the stamped delayed-until is two hours off -/
+theorem wall_clock_relabelled_witness :
+    (renderTime 1700000000000000000 7200).instantSec = some 1700000000 ∧
+    (renderWallClockAsUTC 1700000000000000000 7200).instantSec = some 1700007200 := by
+  decide
 
 example : mget (stamp { id := 0, md := [] } (Delay.for 1700000000123456789 90000000000)).md untilKey = .time 1700000090 := by
   rw [stamp_until]; decide
@@ -158,10 +179,10 @@ theorem delay_batch_ok (cfg : DelayCfg) (topic : String) (ms : List Msg)
 
 /- non-vacuity of `delay_batch_ok` / `delay_batch_error_iff`: a batch mixing pre-set metadata, a context delay and a
    message without any delay under AllowNoDelay has no error; without AllowNoDelay it has -/
-example : (applyAll ⟨none, true⟩ "t" [{ id := 0, md := [(forKey, .raw "1h")] }, { id := 1, md := [], ctxDelay := some ⟨5, 5⟩ },
+example : (applyAll ⟨none, true⟩ "t" [{ id := 0, md := [(forKey, .raw "1h")] }, { id := 1, md := [], ctxDelay := some ⟨5, 5, 0⟩ },
     { id := 2, md := [] }]).2.1 = none := by
   simp [applyAll, applyDelay, mget, Val.empty]
-example : (applyAll ⟨none, false⟩ "t" [{ id := 1, md := [], ctxDelay := some ⟨5, 5⟩ }, { id := 2, md := [] }]).2.1 = some .noDelay := by
+example : (applyAll ⟨none, false⟩ "t" [{ id := 1, md := [], ctxDelay := some ⟨5, 5, 0⟩ }, { id := 2, md := [] }]).2.1 = some .noDelay := by
   simp [applyAll, applyDelay, mget, Val.empty]
 
 /-- **delay_batch_one_call_or_none** for the delay publisher over any inner stack: if some message has no delay
@@ -799,6 +820,17 @@ theorem metrics_handler_once_partial (h pn sn : String) (kp ks : Nat) (outs : Li
     have : (routerStep h pn sn kp ks 1 i o w).hobs = w.hobs ++ [handlerObs h o] := by
       simp [routerStep]
     rw [this]; simp
+
+/-- **overlapping invocations**: every invocation is labelled by its OWN outcome only (the label set is built per
+    call, nothing is shared between calls), so in whatever order the invocations of a handler end – i.e. however they
+    overlap – the observations are the same up to order: per label the same counts -/
+theorem metrics_handler_order_independent (h pn sn : String) (kp ks : Nat) (outs outs' : List Outcome) (i j : Nat)
+    (hp : outs.Perm outs') :
+    (routerRun h pn sn kp ks 1 i outs {}).hobs.Perm (routerRun h pn sn kp ks 1 j outs' {}).hobs := by
+  rw [metrics_handler_once_partial, metrics_handler_once_partial]
+  simpa using hp.map (handlerObs h)
+
+example : [Outcome.ok 0, .err, .panic].Perm [.panic, .ok 0, .err] := by decide
 
 /-- what the code does for any number of registrations: the middleware has no idempotency mark, EACH of the `km`
     applications observes every invocation once (so the histogram shows `km` samples per invocation, all with the
